@@ -1,6 +1,7 @@
 import JediModel.Lemmas.Nesting
 import JediModel.Lemmas.NestingWitness
 import JediModel.Gen.C18
+import JediModel.Model.Members
 /-! # C18 — get_context, parent() and full_name describe the lexical nesting
 
 `getContext`, `parentChain`, `fullNameOfLeaf` are jedi's algorithms, `enclosers` /
@@ -668,5 +669,116 @@ theorem full_name_no_locals (p : NProg) (i : Nat) (l : Leaf) (m q : List String)
     exact hnames t ht.symm
   · simp only [List.mem_singleton] at h1
     exact hown h1.symm
+
+/-! ## Members reached through references (`Script.infer` / `Script.goto` on `receiver.attr`) -/
+
+section Members
+open JediModel.Members
+
+/-- the class whose filter answers a lookup is a class of the receiver's mro and binds the name in its
+own body -/
+theorem member_lookup_in_mro (h : Hier) (c d : Nat) (attr : String) (hl : lookup h c attr = some d) :
+    d ∈ mro h c ∧ attr ∈ h.membersOf d := by
+  unfold lookup at hl
+  refine ⟨List.mem_of_find?_eq_some hl, ?_⟩
+  have := List.find?_some hl
+  simpa using this
+
+/-- a name bound in the body of the receiver's own class is found there (the mro starts with the class) -/
+theorem member_own_body_first (h : Hier) (c : Nat) (attr : String) (hm : attr ∈ h.membersOf c) :
+    lookup h c attr = some c := by
+  have hhead : ∃ rest, mro h c = c :: rest := by
+    unfold mro
+    have hadd : ∀ (new acc : List Nat) (x : Nat) (r : List Nat), acc = x :: r →
+        ∃ r', addNew acc new = x :: r' := by
+      intro new
+      induction new with
+      | nil => intro acc x r h; exact ⟨r, by simpa [addNew] using h⟩
+      | cons y ys ih =>
+        intro acc x r h
+        unfold addNew
+        simp only [List.foldl_cons]
+        by_cases hc : acc.contains y
+        · simp only [hc, if_true]; exact ih acc x r h
+        · simp only [hc]
+          exact ih (acc ++ [y]) x (r ++ [y]) (by simp [h])
+    have hfold : ∀ (bs : List Nat) (f : Nat) (acc : List Nat) (x : Nat) (r : List Nat), acc = x :: r →
+        ∃ r', bs.foldl (fun acc b => addNew acc (mroAux h f b)) acc = x :: r' := by
+      intro bs
+      induction bs with
+      | nil => intro f acc x r h; exact ⟨r, by simpa using h⟩
+      | cons b bs ih =>
+        intro f acc x r h
+        simp only [List.foldl_cons]
+        obtain ⟨r', hr'⟩ := hadd (mroAux _ f b) acc x r h
+        exact ih f _ x r' hr'
+    unfold mroAux
+    exact hfold _ _ [c] c [] rfl
+  obtain ⟨rest, hr⟩ := hhead
+  unfold lookup
+  rw [hr]
+  simp [List.find?, hm]
+
+/-- **full_name of a member reached through a reference.**  For a receiver class `c` (or an instance of
+it) and a name `attr` that the lookup finds in the body of class `d`, in a module whose first name
+component is not a key of `BaseName._mapping`: `full_name` is the module's dotted path followed by the
+`__qualname__` of the object bound in the body of `d` - the class that holds the definition, not the class
+it was fetched through.  Stated over the translator's reading of `BoundMethod` (no `get_qualified_names`
+of its own) and of the operand order of `get_qualified_names`.
+
+FULL (false, see `mapped_module_witness`): without the `_mapping` hypothesis. -/
+theorem member_full_name_eq_qualname_partial (h : Hier) (c d : Nat) (attr : String) (m : List String)
+    (hl : lookup h c attr = some d) (hmne : m ≠ [])
+    (hmap : ∀ x, m.head? = some x → JediModel.Gen.C18.mapping.lookup x = none) :
+    memberFullName JediModel.Gen.C18.mapping JediModel.Gen.C18.moduleJoin JediModel.Gen.C18.boundMethodOwnQual
+      m h c attr = some (m ++ defQualname h d attr) := by
+  unfold memberFullName memberQual
+  rw [hl]
+  simp only [JediModel.Gen.C18.boundMethodOwnQual, Option.map_some, module_join_is_concat, defQualname]
+  congr 1
+  apply applyMapping_unmapped
+  intro x hx
+  apply hmap x
+  cases m with
+  | nil => exact absurd rfl hmne
+  | cons a r => simpa using hx
+
+/-- two receivers that find the same definition report the same `full_name` -/
+theorem member_full_name_same_definition (h : Hier) (c₁ c₂ d : Nat) (attr : String) (m : List String)
+    (h₁ : lookup h c₁ attr = some d) (h₂ : lookup h c₂ attr = some d) :
+    memberFullName JediModel.Gen.C18.mapping JediModel.Gen.C18.moduleJoin JediModel.Gen.C18.boundMethodOwnQual
+      m h c₁ attr =
+    memberFullName JediModel.Gen.C18.mapping JediModel.Gen.C18.moduleJoin JediModel.Gen.C18.boundMethodOwnQual
+      m h c₂ attr := by
+  unfold memberFullName memberQual
+  rw [h₁, h₂]
+  simp [JediModel.Gen.C18.boundMethodOwnQual]
+
+/-- `class S:` / `    class B:` / `        def f` / `    class Q(B): def h` / `class U(S.Q): pass`: -/
+def wHier : Hier :=
+  [⟨["S"], [], ["B", "Q"]⟩, ⟨["S", "B"], [], ["f"]⟩, ⟨["S", "Q"], [1], ["h"]⟩, ⟨["U"], [2], []⟩]
+
+/-- non-vacuity of the hypotheses (an inherited method, nested defining class, two levels of
+inheritance), and the reason the source of the qualified names matters: a `BoundMethod` that named the
+class it was looked up through (`ownQual = true`) would report `mod.U.f` for the `def f` whose
+`__qualname__` is `S.B.f`. -/
+theorem member_lookup_class_witness :
+    mro wHier 3 = [3, 2, 1] ∧ lookup wHier 3 "f" = some 1 ∧ lookup wHier 3 "h" = some 2 ∧
+    lookup wHier 3 "x" = none ∧
+    JediModel.Gen.C18.mapping.lookup "mod" = none ∧
+    memberFullName JediModel.Gen.C18.mapping JediModel.Gen.C18.moduleJoin JediModel.Gen.C18.boundMethodOwnQual
+      ["mod"] wHier 3 "f" = some ["mod", "S", "B", "f"] ∧
+    defQualname wHier 1 "f" = ["S", "B", "f"] ∧
+    memberFullName JediModel.Gen.C18.mapping JediModel.Gen.C18.moduleJoin true ["mod"] wHier 3 "f"
+      = some ["mod", "U", "f"] ∧
+    -- depth-first listing, not C3: `class A: f` / `class B(A)` / `class C(A): f` / `class D(B, C)`
+    mro [⟨["A"], [], ["f"]⟩, ⟨["B"], [0], []⟩, ⟨["C"], [0], ["f"]⟩, ⟨["D"], [1, 2], []⟩] 3 = [3, 1, 0, 2] := by
+  decide
+
+theorem member_source_shapes :
+    JediModel.Gen.C18.boundMethodOwnQual = false ∧
+    JediModel.Gen.C18.mroShape = ["self", "bases-in-order", "base-mro-in-order", "not-in-mro"] := by decide
+
+end Members
 
 end JediModel.Props.C18
